@@ -256,6 +256,8 @@ struct Walk {
     capacity: Option<String>,
     layout: Option<String>,
     layout_expr: String,
+    /// other spellings of the current node (`current.as_ptr()` after `while let Some(current) = NonNull::new(head)`)
+    current_alias: Vec<String>,
 }
 
 impl Walk {
@@ -264,7 +266,7 @@ impl Walk {
         let e = e.strip_suffix("as*mutu8").unwrap_or(e);
         if Some(e) == self.head.as_deref() {
             ".head"
-        } else if Some(e) == self.current.as_deref() {
+        } else if Some(e) == self.current.as_deref() || self.current_alias.iter().any(|a| a == e) {
             ".current"
         } else {
             ".other"
@@ -282,6 +284,14 @@ impl Walk {
     }
     fn other(&mut self, t: &str) {
         self.out.push(format!("(.other {})", lean::s(t)));
+    }
+    /// `..layout((*p).capacity)..`  ->  (which pointer, the argument text)
+    fn layout_of_field(&self, init: &str) -> Option<(&'static str, String)> {
+        let start = init.find("layout(")? + "layout(".len();
+        let rest = &init[start..];
+        let end = rest.find(".capacity)")? + ".capacity".len();
+        let inner = &rest[..end];
+        self.deref_of(inner, "capacity").map(|p| (p, inner.to_string()))
     }
     fn stmt(&mut self, s: &Stmt) {
         match s {
@@ -310,12 +320,22 @@ impl Walk {
         if init.starts_with("self.head.load(") || init == "*self.head.get_mut()" {
             self.head = Some(name.to_string());
             self.out.push(".loadHead".into());
+        } else if self.current_alias.iter().any(|a| a == init) {
+            // another name for the node the loop head already remembered
+            self.current_alias.push(name.to_string());
         } else if Some(init) == self.head.as_deref() {
             self.current = Some(name.to_string());
             self.out.push(".saveCurrent".into());
         } else if let Some(p) = self.deref_of(init, "capacity") {
             self.capacity = Some(name.to_string());
             self.out.push(format!("(.readCapacity {p})"));
+        } else if init.contains("layout((*") && self.layout_of_field(init).is_some() {
+            // `layout((*p).capacity)`: the capacity is read and used in one expression
+            let (p, inner) = self.layout_of_field(init).unwrap();
+            self.out.push(format!("(.readCapacity {p})"));
+            self.layout = Some(name.to_string());
+            self.layout_expr = canon_layout(&init.replace(&format!("layout({inner})"), "layout(capacity)"));
+            self.out.push(".layoutOfCapacity".into());
         } else if init.contains("layout(") {
             let arg_ok = self.capacity.as_deref().map(|c| init.contains(&format!("layout({c})"))).unwrap_or(false);
             if arg_ok {
@@ -345,8 +365,22 @@ impl Walk {
             Expr::While(w) => {
                 let c = squash(&toks(&*w.cond));
                 let ok = self.head.as_deref().map(|h| c == format!("!{h}.is_null()")).unwrap_or(false);
+                // `while let Some(node) = NonNull::new(head)`: the test and remembering the node in one
+                let let_form = self.head.as_deref().and_then(|h| {
+                    let rest = c.strip_prefix("letSome(")?;
+                    let (node, tail) = rest.split_once(")=")?;
+                    if tail == format!("NonNull::new({h})") && node.chars().all(|ch| ch.is_alphanumeric() || ch == '_') {
+                        Some(node.to_string())
+                    } else {
+                        None
+                    }
+                });
                 if ok {
                     self.out.push(".whileHeadNonNull".into());
+                } else if let Some(node) = let_form {
+                    self.out.push(".whileHeadNonNull".into());
+                    self.out.push(".saveCurrent".into());
+                    self.current_alias.push(format!("{node}.as_ptr()"));
                 } else {
                     self.other(&format!("while {c}"));
                 }
@@ -442,7 +476,7 @@ pub fn emit(src: &Path, out: &mut String) {
     if apath.exists() {
         let file = parse_file(&apath);
         let alloc_l = find_fn(&file, "AtomicBucket", None, "with_capacity").map(alloc_layout).unwrap_or_else(|| "?no with_capacity".into());
-        let mut w = Walk { out: Vec::new(), head: None, current: None, capacity: None, layout: None, layout_expr: "?".into() };
+        let mut w = Walk { out: Vec::new(), head: None, current: None, capacity: None, layout: None, layout_expr: "?".into(), current_alias: Vec::new() };
         match find_fn(&file, "AtomicBucketList", Some("Drop"), "drop") {
             Some(d) => {
                 for s in &d.block.stmts {
